@@ -92,7 +92,8 @@ func runC11(c *Ctx) {
 	// a realm that could not be created never enters the realm table (a nil entry would crash the router, and with it
 	// every other realm, on the next HELLO, RemoveRealm or Close naming it)
 	c.Guard(r2, ar, "realm entered in the table", `^mapupdate:%r\.realms\[%config\.URI\]=`, 1, clause("newRealm succeeded", T(`^\(call:router\.newRealm\(.*\)#1 == nil\)$`)))
-	c.R.Floor(r2, 17)
+	ruleRealmWiring(c, r2)
+	c.R.Floor(r2, 21)
 
 	const r3 = "C11.R3 no package-level routing state"
 	nGlob, nWrites := 0, 0
